@@ -594,8 +594,14 @@ def _r21c(chk) -> None:
 
     n_own = n_ext = n_other = 0
     seen_rows = set()
+    import re
+
+    # cheap textual pre-filter (over-approximate): only modules that can contain a store at all are walked
+    store_rx = re.compile(r"\.(?:%s)\b\s*(?:[-+*/|&]?=(?!=)|:)|\bdel\b|setattr\(|delattr\(|__dict__|__setattr__" % "|".join(sorted(re.escape(x) for x in fields)))
     for rel, m in repo.modules.items():
         owner = rel.startswith(SEGPKG)
+        if not store_rx.search(m.text):
+            continue
         for n in ast.walk(m.tree):
             recv = field = None
             if isinstance(n, ast.Attribute) and isinstance(n.ctx, (ast.Store, ast.Del)) and n.attr in fields:
@@ -645,8 +651,9 @@ def _r21c(chk) -> None:
     chk.floor("R21c.stores_outside_checked", 5)
     # in-place mutator calls outside the parser package
     n_mut = 0
+    mut_rx = re.compile(r"\.(?:%s)\s*\(" % "|".join(sorted(re.escape(x) for x in mutators)))
     for rel, m in repo.modules.items():
-        if rel.startswith("src/sqlfluff/core/parser/"):
+        if rel.startswith("src/sqlfluff/core/parser/") or not mut_rx.search(m.text):
             continue
         for n in ast.walk(m.tree):
             if isinstance(n, ast.Call) and isinstance(n.func, ast.Attribute) and n.func.attr in mutators and enclosing_function(n) is not None:
@@ -721,7 +728,6 @@ def _r21d(chk) -> None:
     cfg = cfg_of(f)
     exp = repo.fn(BASE, "RuleSet._expand_rule_refs")
     cfgparam = _param_of_class(repo, f, FLUFF, "FluffConfig", "config")
-    C = f"{BASE}::RuleSet.get_rulepack"
 
     # -- the pack: RulePack(<rules>, <reference map>) --------------------------------
     packs = []
@@ -846,7 +852,7 @@ def _check_instantiation(chk, repo, f, cfg, sh, cfgparam, is_refmap, exp) -> Non
     call = sh.node
     st = cfg.stmt_of(call)
     val = call.args[-1] if call.args else None
-    C = construct_of(call)
+    construct_of(call)
     # the appended value: <rule_class>(**kwargs) with rule_class = self._register[<code>].rule_class
     inst = None
     for x, xst in _single_origin_exprs(cfg, val, st) if val is not None else []:
@@ -867,7 +873,7 @@ def _check_instantiation(chk, repo, f, cfg, sh, cfgparam, is_refmap, exp) -> Non
         return
     code = code_vars.pop()
     # the code comes from a for loop over the filtered key list
-    probe = next((n for n in ast.walk(icall.func) if isinstance(n, ast.Name)), None)
+    next((n for n in ast.walk(icall.func) if isinstance(n, ast.Name)), None)
     cname = ast.Name(id=code, ctx=ast.Load())
     os_ = origins(cfg, cname, st)
     loops = [o for o in os_ if o.kind == "for" and not o.path]
@@ -1124,6 +1130,7 @@ def run(chk) -> None:
     _r21d(chk)
     _r21e(chk)
     _r21f(chk)
+    chk.exhaustive = True
     chk.assumptions.append("CPython ast gives the program's syntax faithfully; the reviewed tables (FIELD_WRITERS, MUTATOR_CALLERS, RULE_INSTANCE_STATE in sa/rules/c21.py) were reviewed by hand")
     chk.assumptions.append("receiver classification is syntactic (self of a non-segment class / annotated or constructed non-segment class are not segments; everything else is treated as a segment)")
 
